@@ -49,7 +49,7 @@ func (kt *kindTable) decodeOutcomes(k int64, nullable bool) []decodeOutcome {
 	if f == nil {
 		return nil
 	}
-	in := &interp{p: kt.p, f: f}
+	in := &interp{p: kt.p, f: f, inline: smallHelper}
 	in.forkHook = func(st *istate, cond *aval, ifi *ssa.If) string {
 		s := cond.String()
 		if strings.Contains(s, `string(data) == "null"`) {
@@ -352,10 +352,43 @@ func relValueFromLinkage(v ssa.Value, loop map[*ssa.BasicBlock]bool) bool {
 		_, isAlloc := base.(*ssa.Alloc)
 		return isAlloc && structName(base.Type()) == "Identifier"
 	}
+	// the projection may live in a helper (Identifiers.IDs): every result of
+	// the callee is such a projection of its receiver, and the receiver here is
+	// the decoded linkage variable
+	if c, isCall := x.(*ssa.Call); isCall {
+		g := c.Common().StaticCallee()
+		if g == nil || g.Blocks == nil || len(c.Common().Args) != 1 || len(g.Params) != 1 {
+			return false
+		}
+		if ld, ok := c.Common().Args[0].(*ssa.UnOp); !ok || ld.Op != token.MUL {
+			return false
+		} else if _, isAlloc := ld.X.(*ssa.Alloc); !isAlloc {
+			return false
+		}
+		n := 0
+		for _, b := range g.Blocks {
+			ret, ok := b.Instrs[len(b.Instrs)-1].(*ssa.Return)
+			if !ok {
+				continue
+			}
+			n++
+			ms, ok := ret.Results[0].(*ssa.MakeSlice)
+			if !ok || !idProjection(ms, g.Params[0]) {
+				return false
+			}
+		}
+		return n > 0
+	}
 	ms, ok := x.(*ssa.MakeSlice)
 	if !ok {
 		return false
 	}
+	return idProjection(ms, nil)
+}
+
+// idProjection: ms is filled by ms[i] = src[i].ID for the same i and handed to
+// nothing that could reorder it (src, when given, is the list projected).
+func idProjection(ms *ssa.MakeSlice, src ssa.Value) bool {
 	good := false
 	for _, ref := range referrers(ms) {
 		switch y := ref.(type) {
@@ -369,7 +402,7 @@ func relValueFromLinkage(v ssa.Value, loop map[*ssa.BasicBlock]bool) bool {
 				if ld, ok := st.Val.(*ssa.UnOp); ok && ld.Op == token.MUL {
 					if fa, ok := ld.X.(*ssa.FieldAddr); ok {
 						if _, fl := fieldRef(fa.X, fa.Field); fl == "ID" {
-							if ia2, ok := fa.X.(*ssa.IndexAddr); ok && ia2.Index == y.Index {
+							if ia2, ok := fa.X.(*ssa.IndexAddr); ok && ia2.Index == y.Index && (src == nil || ia2.X == src) {
 								good = true
 								continue
 							}
@@ -378,7 +411,7 @@ func relValueFromLinkage(v ssa.Value, loop map[*ssa.BasicBlock]bool) bool {
 				}
 				return false
 			}
-		case *ssa.MakeInterface:
+		case *ssa.MakeInterface, *ssa.Return:
 		case ssa.CallInstruction:
 			// the slice is handed to a function before being stored (sort, reverse, …)
 			return false
